@@ -579,9 +579,14 @@ Inductive effect :=
 | ERetry (retry_time wait : N)                     (* did the peer see a second copy within `wait` *)
 | EResize (p : proto) (o : optid) (full : bool) (newlen : N)
 | EZeroQ (p : proto) (o : optid)
-| EOrigin (sets : list bool).                      (* WEBSOCKET-CHECKORIGIN set to these values in turn, then an upgrade with a foreign Origin *)
+| EOrigin (sets : list bool)                       (* WEBSOCKET-CHECKORIGIN set to these values in turn, then an upgrade with a foreign Origin *)
+| EMaxRecv (tr : string) (via_socket : bool) (sets : list N) (msglen : N).
+    (* MAX-RCV-SIZE set on a listener (or through its socket) to these values in turn, before and after Listen; then a new
+       peer connects and sends one message of that length *)
 
 (* what the PROPERTY requires to be observed *)
+(* the receive limit: 0 = none, otherwise the largest message accepted (default 1 MiB) *)
+Definition max_recv_admits (limit n : N) : bool := (limit =? 0)%N || (n <=? limit)%N.
 Definition effect_expected (e : effect) : string :=
   match e with
   | ERecvBlock _ d w => if deadline_ready d w then "timeout" else "blocked"
@@ -591,6 +596,7 @@ Definition effect_expected (e : effect) : string :=
   | EResize _ _ _ _ => "kept"
   | EZeroQ _ _ => "works"
   | EOrigin sets => if last sets true then "refused" else "accepted"   (* the value in force is the last one set; default: check *)
+  | EMaxRecv _ _ sets n => if max_recv_admits (last sets 1048576%N) n then "delivered" else "dropped"
   end.
 Definition check_effect (c : effect * string) : bool :=
   let '(e, r) := c in String.eqb r (effect_expected e).
